@@ -134,11 +134,24 @@ Theorem C01_target_normal_form : forall part sp,
   normalize_target (spell sp part) = p_xl ++ part.
 Proof. exact target_normal_form. Qed.
 
-Theorem C01_sheet_type_of_folder : forall rest,
-  sheet_type_of (p_xl ++ p_worksheets ++ SLASH :: rest) = Some 0 /\
-  sheet_type_of (p_xl ++ p_chartsheets ++ SLASH :: rest) = Some 1 /\
-  sheet_type_of (p_xl ++ p_dialogsheets ++ SLASH :: rest) = Some 2 /\
-  sheet_type_of (p_xl ++ p_macrosheets ++ SLASH :: rest) = Some 3.
+(* the kind of a sheet is the one the Type of its workbook relationship names (OPC part names are
+   free: [legal_workbook] lets [sr_part] be ANY name, and [C01_xlsx_workbook_main] below holds for
+   all of them); replaces the former C01_sheet_type_of_folder *)
+Theorem C01_sheet_type_of_relationship :
+  sheet_type_of_rel t_ws = Some 0 /\ sheet_type_of_rel t_ws_strict = Some 0 /\
+  sheet_type_of_rel t_cs = Some 1 /\ sheet_type_of_rel t_cs_strict = Some 1 /\
+  sheet_type_of_rel t_ds = Some 2 /\ sheet_type_of_rel t_ds_strict = Some 2 /\
+  sheet_type_of_rel t_xlm = Some 3 /\ sheet_type_of_rel t_xlim = Some 3 /\
+  (forall t, existsb (str_eqb t) sheet_rel_types = true -> exists k, sheet_type_of_rel t = Some k) /\
+  (forall k path, sheet_type (Some k) path = Some k).
+Proof. exact sheet_type_of_relationship. Qed.
+
+(* the folder of the part is consulted only when the Type names no sheet kind *)
+Theorem C01_sheet_type_folder_fallback : forall rest,
+  sheet_type None (p_xl ++ p_worksheets ++ SLASH :: rest) = Some 0 /\
+  sheet_type None (p_xl ++ p_chartsheets ++ SLASH :: rest) = Some 1 /\
+  sheet_type None (p_xl ++ p_dialogsheets ++ SLASH :: rest) = Some 2 /\
+  sheet_type None (p_xl ++ p_macrosheets ++ SLASH :: rest) = Some 3.
 Proof. exact sheet_type_of_folder. Qed.
 
 Theorem C01_part_lookup_case_insensitive : forall A (parts : list (XmlText.str * A)) p p',
@@ -233,7 +246,8 @@ Print Assumptions C01_encoding_independent.
 Check C01_xlsx_workbook_main.
 Print Assumptions C01_sheet_nonvacuous.
 Print Assumptions C01_target_normal_form.
-Print Assumptions C01_sheet_type_of_folder.
+Print Assumptions C01_sheet_type_of_relationship.
+Print Assumptions C01_sheet_type_folder_fallback.
 Print Assumptions C01_part_lookup_case_insensitive.
 Print Assumptions C01_part_lookup_recased.
 Print Assumptions C01_paths_nonvacuous.
